@@ -66,12 +66,12 @@ theorem op_return_logic (env : Env) (cur : List POp) (off : Nat) (s : St) :
     (env.cfg.afterGenesis = true → s.cond = [] → handler env cur off o s = .success { s with early := true }) ∧
     (env.cfg.afterGenesis = true → s.cond ≠ [] → handler env cur off o s = .ok { s with early := true }) := by
   refine ⟨?_, ?_, ?_⟩
-  · intro h; simp [handler, h]
-  · intro h hc; simp [handler, h, hc]
+  · intro h; simp [handler, handlerFlow, h]
+  · intro h hc; simp [handler, handlerFlow, h, hc]
   · intro h hc
     cases hcs : s.cond with
     | nil => exact absurd hcs hc
-    | cons c cs => simp [handler, h, hcs]
+    | cons c cs => simp [handler, handlerFlow, h, hcs]
 
 /-- Disabled opcodes (OP_2MUL, OP_2DIV) fail even in a branch that is not executed before Genesis, and only
     when executed after Genesis; OP_VERIF / OP_VERNOTIF are always illegal before Genesis. -/
